@@ -217,6 +217,20 @@ pub fn mk_sched(p: &Value) -> Arc<Mk> {
             m.put("j", "l", "2");
             m.put("j2", "l", "3");
             m.put("t", "n", "L:k");
+            // the source may be handed to the cache through the std wrappers: hot-reloading must work the same
+            if variant == "arc-source" {
+                let cache: &'static AssetCache<Arc<Mem>> = Box::leak(Box::new(AssetCache::with_source(Arc::new(m.clone()))));
+                return wrapped_body(cache, &m);
+            }
+            if variant == "box-source" {
+                let cache: &'static AssetCache<Box<Mem>> = Box::leak(Box::new(AssetCache::with_source(Box::new(m.clone()))));
+                return wrapped_body(cache, &m);
+            }
+            if variant == "ref-source" {
+                let mr: &'static Mem = Box::leak(Box::new(m.clone()));
+                let cache: &'static AssetCache<&'static Mem> = Box::leak(Box::new(AssetCache::with_source(mr)));
+                return wrapped_body(cache, &m);
+            }
             let cache: &'static AssetCache<Mem> = Box::leak(Box::new(AssetCache::with_source(m.clone())));
             ds::adopt(1, "reloader");
             let file = |id: &str| OwnedDirEntry::File(id.into(), "l".into());
@@ -279,6 +293,22 @@ pub fn mk_sched(p: &Value) -> Arc<Mk> {
     })
 }
 
+/// load; edit; notify; quiesce; hot_reload through a wrapped source
+fn wrapped_body<S: assets_manager::source::Source + Sync>(cache: &'static AssetCache<S>, m: &Mem) {
+    if !cache.as_any_cache().is_hot_reloaded() {
+        ds::log("value k got=no-reloader want=11".to_string());
+        return;
+    }
+    ds::adopt(1, "reloader");
+    cache.load::<L>("k").unwrap();
+    m.put("k", "l", "11");
+    m.ev(OwnedDirEntry::File("k".into(), "l".into()));
+    ds::quiesce();
+    cache.hot_reload();
+    let got = cache.get_cached::<L>("k").map(|h| h.read().v.to_string()).unwrap_or("-".into());
+    ds::log(format!("value k got={got} want=11"));
+}
+
 pub fn judge_sched(r: &ds::RunResult) -> Option<(String, String)> {
     for l in &r.log {
         if let Some(rest) = l.strip_prefix("value ") {
@@ -296,10 +326,10 @@ pub fn run_sched(args: &Args) -> SubResult {
     let mut res = SubResult::new("C05", "c05_sched");
     let thorough = args.thorough();
     let bound = if thorough { 3 } else { 2 };
-    res.bound = format!("variants {{leaf, node over leaf, enhance_hot_reloading, two assets (single events / one batch), concurrent loader traffic}} x hash seeds 0,5: load; edit; notify; quiesce; hot_reload with NO barrier between the load and the notification; every schedule with <= {bound} preemptions and both Select::ready answers");
+    res.bound = format!("variants {{leaf, node over leaf, enhance_hot_reloading, two assets (single events / one batch), concurrent loader traffic, source handed over as Arc / Box / &'static}} x hash seeds 0,5: load; edit; notify; quiesce; hot_reload with NO barrier between the load and the notification; every schedule with <= {bound} preemptions and both Select::ready answers");
     res.rule = "every schedule within the bound; oracle: after the pass the cached value is the edited one; distinct = distinct (variant, observation log)".into();
     let mut cases = vec![];
-    for v in ["leaf", "node", "static", "two", "traffic"] {
+    for v in ["leaf", "node", "static", "two", "traffic", "arc-source", "box-source", "ref-source"] {
         for seed in [0u64, 5] {
             for batch in [false, true] {
                 if batch && v != "two" {
